@@ -22,6 +22,10 @@ VARIANTS = {
     # changed options
     'Anv': ("{'vectorize': False}", "x = Int(2)\n    y = Int(2)"),
     'Anp': ("{'generate_for_pack': False}", "x = Int(2)\n    y = Int(2)"),
+    # one half of the code generated only: two different field lists under the same option
+    'Cnp': ("{'generate_for_pack': False}", "x = Int(1)\n    y = Int(4)\n    z = Data(2)"),
+    'Anu': ("{'generate_for_unpack': False}", "x = Int(2)\n    y = Int(2)"),
+    'Cnu': ("{'generate_for_unpack': False}", "x = Int(1)\n    y = Int(4)\n    z = Data(2)"),
     'Aoff': ("{'generate_for_pack': False, 'generate_for_unpack': False}", "x = Int(2)\n    y = Int(2)"),
     'Ana': ("{'annotate': False}", "x = Int(2)\n    y = Int(2)"),
     # same field lines, names, sizes and options: only the descriptor of the described field (and so its hooks) differs
